@@ -414,6 +414,10 @@ fn check_header(prefix: u64, ty: u8, extra: usize) -> Result<(), (String, String
         return match r {
             Ok(None) => Ok(()),
             Ok(Some(_)) => Err(("header:early-frame".into(), format!("prefix {prefix}, only {extra} payload bytes, yet a frame was produced"))),
+            // bytes that cannot be the beginning of any frame (a type no frame has, an Ok frame
+            // that announces a payload) may be refused at once or once the announced bytes are
+            // there: the property speaks about the encodings of frames
+            Err(_) if ty > 7 || (ty == 7 && prefix > 0) => Ok(()),
             Err(e) => Err(("header:early-error".into(), format!("prefix {prefix} (<= 1 MiB), {extra} payload bytes: error {e} instead of waiting"))),
         };
     }
